@@ -84,7 +84,9 @@ def check(res):
         if tag == "followup-null" and cmds != ["null"]:
             out.append(V("followup-trace-differs", f"{tag}: messages {cmds}", tag=tag))
         if tag == "followup-run":
-            names = [d.d["name"] for d in c.of("doc") if d.d["doc"].get("name") != "interruptions"]
+            intr = {d.d["doc"]["uid"] for d in c.of("doc") if d.d["name"] == "descriptor" and d.d["doc"].get("name") == "interruptions"}
+            # (the record of a suspension by a late flap of the main call's schedule is not the plan's data)
+            names = [d.d["name"] for d in c.of("doc") if d.d["doc"].get("name") != "interruptions" and not (d.d["name"] == "event" and d.d["doc"].get("descriptor") in intr)]
             if res.case.get("re", {}).get("preprocessors"):
                 # SupplementalData adds baseline / monitor / flyer streams to every run: compare the primary stream only
                 prim = {d.d["doc"]["uid"] for d in c.of("doc") if d.d["name"] == "descriptor" and d.d["doc"].get("name") == "primary"}
